@@ -7,6 +7,12 @@ Bailiwick.tla : zone tree (test. -> bank.test. honest victim, attacker.test. = Z
                 (MC_regress_*: non-vacuity), records what the transcription of the pinned code
                 predicts (MC_asis_relay), and enumerates every attack script with the model's
                 predicted replies (Emit_1: single-move, Emit_2: two-move).
+                A move may also carry race = TRUE (action ConcurrentCold: another client's cold
+                query below Z caches Z's delegation while the attack query waits for test.'s
+                referral) and the namespace may be Deep (Z = attacker.co.test., two labels below
+                test.): resolveState.level, from which checkGlueRR derives the glue bailiwick, is
+                modelled; MC_regress_nocachedlevel is the negative twin (level++ on the cached
+                path), Emit_deep / Emit_race the scripts.
 harness/c07   : each script is played by scripted authoritative servers (authkit hooks on Z's
                 server, a trap server and a canary on the addresses that must never be used)
                 against the REAL full pipeline, unsigned and signed+CD=1, with and without
@@ -14,6 +20,7 @@ harness/c07   : each script is played by scripted authoritative servers (authkit
                 by the victim queries.  Verdict = predicates on the real replies / dial log only.
 """
 import json
+import os
 import random
 
 import vf
@@ -30,7 +37,11 @@ REGRESS = [  # cfg -> clause that must fail with that filter off
     ("MC_regress_noclass.cfg", "ReferralSound"),
     ("MC_regress_noprogress.cfg", "NoForeignUsed"),
     ("MC_regress_nocachef.cfg", "NoRelayOnHit"),
+    # resolveWithCachedNameservers counting one label where the referral descended two (Deep namespace, race move)
+    ("MC_regress_nocachedlevel.cfg", "GlueSound"),
 ]
+# the same switch off where it must NOT matter: every referral descends one label / nobody got to the cache first
+LEVEL_HOLDS = ["MC_sound_deep.cfg", "MC_nocachedlevel_shallow.cfg", "MC_nocachedlevel_norace.cfg"]
 BATCH = 300  # scripts per driver process: every resolver built leaves ~2 MB behind (its 12 h ticker goroutine)
 
 
@@ -39,6 +50,9 @@ def emit(ctx, cfg, expect, workers=4, timeout=900, count=True):
     scripts = [c for c in r.printed() if isinstance(c, dict) and "script" in c and "replies" in c]
     uniq = {}
     for s in scripts:
+        if not any(m.get("race") for m in s["script"]):
+            for m in s["script"]:
+                m.pop("race", None)   # race-free scripts keep the shape (and the digests) they had before the field existed
         uniq[json.dumps(s["script"], sort_keys=True)] = s
     scripts = [uniq[k] for k in sorted(uniq)]
     if len(scripts) != expect:
@@ -48,6 +62,8 @@ def emit(ctx, cfg, expect, workers=4, timeout=900, count=True):
 
 def models(ctx, thorough):
     ctx.tlc("Bailiwick", "MC_Bailiwick.tla", "MC_sound_1.cfg", workers=4, timeout=600, heap="4g", tag="sound")
+    for cfg in LEVEL_HOLDS + (["MC_sound_race.cfg"] if thorough else []):
+        ctx.tlc("Bailiwick", "MC_Bailiwick.tla", cfg, workers=2, timeout=600, heap="4g", tag="sound-level")
     if thorough:
         ctx.tlc("Bailiwick", "MC_Bailiwick.tla", "MC_sound_2.cfg", workers=8, timeout=1500, heap="6g", tag="sound")
     for cfg, clause in REGRESS:
@@ -98,7 +114,7 @@ def replay_scripts(ctx, name, scripts, variants, min_levels, workers=6, verbose=
     ctx.cov["replay"][name] = tot
     if tot["counters"].get("conforms_to_sound_model", 0):
         ctx.log("note: %d replies in %s follow the all-filters-on model rather than the as-is transcription "
-                "(the tree filters the answer section by owner)" % (tot["counters"]["conforms_to_sound_model"], name))
+                "(the tree has the filter the transcription lacks)" % (tot["counters"]["conforms_to_sound_model"], name))
     for n in tot["drift_notes"][:4]:
         ctx.log("DRIFT: " + n)
     return tot
@@ -135,13 +151,26 @@ def run(ctx, replay):
             rp = json.load(f)["replay"]
         if rp.get("driver") == "deleg":
             return x07dc.replay_file(ctx, replay)
-        sc = {"script": rp["script"], "replies": [], "victims": [], "dialled": [], "bankLog": [], "broken": []}
+        sc = {"script": rp["script"], "replies": [], "victims": [], "dialled": [], "bankLog": [], "broken": [],
+              "deep": bool(rp.get("deep"))}
         res = ctx.go_driver("./c07", "TestBailiwickReplay",
                             {"scripts": [sc], "variants": [rp["variant"]], "minLevel": [rp.get("qname_min_level", 0)],
                              "workers": 1, "verbose": True}, name="replay")
         res["drift"] = 0  # no model prediction was supplied
         ctx.take_driver_result(res, "[Bailiwick replay] ")
         ctx.cov["states"] = ctx.cov["transitions"] = 1
+        return
+
+    if os.environ.get("VERIF_C07_ONLY") == "level":
+        # development aid (mutation trials of the level element on a loaded machine); the suite never sets it
+        for cfg in LEVEL_HOLDS:
+            ctx.tlc("Bailiwick", "MC_Bailiwick.tla", cfg, workers=2, timeout=600, heap="4g", tag="sound-level")
+        r = ctx.tlc("Bailiwick", "MC_Bailiwick.tla", "MC_regress_nocachedlevel.cfg", workers=2, timeout=600, heap="4g",
+                    must_pass=False, count=False, tag="regression-must-fail")
+        if r.violated != "GlueSound":
+            raise vf.MachineryError("MC_regress_nocachedlevel: expected GlueSound to fail, TLC says %s" % r.violated)
+        level_tier(ctx, ["unsigned", "signedcd"])
+        observations(ctx)
         return
 
     # X07DC: the provisional server set in the delegation cache while a delegation is still being assembled
@@ -172,4 +201,61 @@ def run(ctx, replay):
         vacuity(t2, "double_all", NEED_SINGLE)
         t3 = replay_scripts(ctx, "double_min5_sample", rnd.sample(double, 1500), variants, [5], workers=8)
         vacuity(t3, "double_min5_sample", ["victim_truth"])
+    level_tier(ctx, variants)
+    observations(ctx)
     ctx.sample({"note": "model prediction for the first single-move script", "case": single[0]})
+
+
+def level_tier(ctx, variants):
+    """resolveState.level on the cached-delegation path: scripts with a race move, in the deep and the shallow namespace.
+
+    Emit_deep: Deep = TRUE, race in {FALSE, TRUE} (36 scripts); Emit_race: Deep = FALSE, race = TRUE (18).  Predictions come
+    from the transcription of the pinned code (level++) with the all-filters-on model as the alternative a repaired
+    tree conforms to.  Every script runs with qname minimisation off (the model's D6) and on (level 5: the code
+    then walks label by label and the increment is exact)."""
+    scripts = []
+    for cfg, alt_cfg, n in (("Emit_deep.cfg", "EmitSound_deep.cfg", 36), ("Emit_race.cfg", "EmitSound_race.cfg", 18)):
+        got = emit(ctx, cfg, n)
+        alt = {json.dumps(s["script"], sort_keys=True): s for s in emit(ctx, alt_cfg, n, count=False)}
+        for s in got:
+            a = alt[json.dumps(s["script"], sort_keys=True)]
+            s["altReplies"], s["altVictims"], s["altDialled"] = a["replies"], a["victims"], a["dialled"]
+        scripts += got
+    predicted = sorted({kinds(s) for s in scripts if "GlueSound" in s["broken"]})
+    ctx.cov["replay"]["model_levelpp_breaks_glue_for"] = predicted
+    if not predicted:
+        raise vf.MachineryError("Emit_deep: the level++ transcription breaks GlueSound for no script (vacuous model?)")
+    t = replay_scripts(ctx, "level", scripts, variants, [0, 5])
+    vacuity(t, "level", ["victim_truth"])
+    c = t["counters"]
+    # every race move's attack query reaches test. (Z is not cached yet): the concurrent client must have been started,
+    # and with minimisation off it must have been answered before the referral was released (that IS the history)
+    if (c.get("race_cases", 0) == 0 or c.get("race_started", 0) != c["race_cases"]
+            or c.get("race_answered_before_referral_released", 0) < c.get("race_cases_nomin", 0)):
+        raise vf.MachineryError("level replay: the concurrent client was not driven as the model says: %s" % c)
+
+
+def observations(ctx):
+    """Behaviours next to C07 that do not make a predicate of the statement false as worded (see harness/c07/observe_test.go):
+    logged, never a verdict."""
+    res = ctx.go_driver("./c07", "TestObserve", {}, name="observe", timeout=300)
+    c = res.get("counters", {})
+    obs = {
+        "dname_nodata_relay": "Resolver.answer returns before clearAdditional when a DNAME target is NODATA/empty: authority and "
+                              "additional records owned outside Z, as Z's server sent them, reach the client%s (not in the answer "
+                              "section, not cached under their own names, no other question answered from them)"
+                              % (" and are served again from the cache" if c.get("dname_nodata_relay_from_cache") else ""),
+        "priming_loopback": "Resolver.checkPriming installs root server addresses from the additional section of the priming reply "
+                            "without usableAddr: a priming reply naming 127.0.0.1 sends the clients' queries to loopback "
+                            "(not a referral's glue; the root's servers are the trust root, D1)",
+    }
+    ctx.cov["replay"]["observations"] = {k: bool(c.get(k)) for k in obs}
+    for k, text in obs.items():
+        ctx.log("OBSERVATION %s: %s -- %s" % (k, "present" if c.get(k) else "absent", text))
+    if res.get("skipped"):
+        ctx.log("observations skipped: %s" % res["skipped"][:2])
+
+
+def kinds(s):
+    return "+".join(m["kind"] + ("/" + m["glue"] if m["glue"] != "na" else "") + ("@race" if m.get("race") else "")
+                    + ("@deep" if s.get("deep") else "") for m in s["script"])
